@@ -172,6 +172,9 @@ func cellFromIndex(k int) core.Opts {
 
 func randomCell(r *rand.Rand) core.Opts {
 	o := cellFromIndex(r.Intn(270))
+	if o.Breaker == 2 && r.Intn(8) == 0 {
+		o.RandomFlag = true // documented to concern the greedy breaker only
+	}
 	return o
 }
 
